@@ -359,6 +359,10 @@ def podstrStep (n : Nat) (s : ByteArray) (op : String) (args : List Int) : Optio
   match op, args with
   | "from", [blob] => some (PodStr.ofBytes n (blobBytes blob), "-")
   | "copy", [blob] => some (PodStr.ofBytes n (blobBytes blob), "-")
+  | "asunchk", [] =>
+    match PodStr.asStr s with
+    | some t => some (s, "ok x" ++ hexBA t)
+    | none => some (s, "err")
   | "asstr", [] =>
     match PodStr.asStr s with
     | some t => some (s, "ok x" ++ hexBA t)
